@@ -133,7 +133,7 @@ def tv_eval(test: ast.AST, assume: Dict[str, Optional[bool]]) -> Optional[bool]:
     d = dotted(test)
     if d is not None and d in assume:
         return assume[d]
-    if isinstance(test, ast.Call):
+    if isinstance(test, (ast.Call, ast.Compare)):
         k = src(test)
         if k in assume:
             return assume[k]
